@@ -46,6 +46,10 @@ CHECKS = {
    technique="property-based testing (rapid): generated collection schemas, schema evolution, documents and queries on the document engine vs a reference document list and an index-free twin collection; proof round-trips with alteration",
    text="Generated schemas (STRING/INTEGER/DOUBLE/BOOLEAN/UUID, nested paths, unique/composite indexes, custom id field), histories of insert-batch/replace/delete (by id, query, limit+order) and AddField/RemoveField/CreateIndex/DeleteIndex, documents with nested JSON, missing/null fields, numeric edge values, unicode, and generated DNF queries with ORDER BY and paging. Every step is applied to an indexed collection and an index-free twin: full listing, id lookup, search membership (asserted where operands are present and non-null), counts, audit trail and encoded documents equal the reference list; indexed and twin agree on cardinality, set and order; unique indexes refuse duplicates and refused writes leave the listing unchanged. ProofDocument + VerifyDocument succeed for every stored revision and fail for altered documents, other revisions, swapped ids, flipped bits and wrong states.",
    note="Null/missing comparison semantics only differential. 11 document/SQL/store defects pinned as probes and excluded by class (K19j repaired). gRPC paging layer, concurrent writers and reopen not driven."),
+ "C01": dict(level="exploration", design="DESIGN.md §2 C01",
+   technique="property-based testing (rapid): generated histories (incl. lagging binary linking and a fork store) with completeness checks and a mutation/splicing/relabelling adversary against the store verifiers; a synthetic equivocating server; an in-process server + real client with a reply-altering gRPC interceptor",
+   text="Store level: real stores H and a fork F sharing a replicated prefix (1-60 txs, metadata, header v0/v1, generated BlTxID lag through hand-assembled replicated txs). Completeness: every honest DualProof/DualProofV2/LinearProof/LinearAdvanceProof/entry inclusion proof verifies against independent reference hashes. Soundness: mutated, spliced (from F), relabelled and re-hashed answers are pushed through the verification steps of verifiedGet; accept => the accepted Alh and entry are H's (or F's when F truly extends the trusted state). Equivocation sessions: an honest linear chain with a Merkle tree holding another tx's Alh at generated positions; a client session must never accept a contradicting tree or two Alh under one id. Client/server: bufconn server + pkg/client, altered replies for VerifiedGet/At/Since/AtRevision/TxByID/Set/SetReference/ZAdd/VerifyRow; success => stored state true, non-decreasing, returned data is the history's.",
+   note="Trusted: SHA-256 collision resistance and the re-statement of the hash definitions in checks/c01/ref_test.go. K01b/K01g repaired and pinned; K01a, K01c-f (client returns unverified reply fields; v0 metadata; VerifyRow trusts the reply's catalog) pinned and excluded as exact classes. VerifyDocument end-to-end, streaming calls, other-language SDKs not driven."),
 }
 
 NOT_YET = "check not built yet in this session (work in progress; see DESIGN.md §2 for the planned harness)"
